@@ -965,7 +965,23 @@ type c12Worker struct {
 }
 
 // run drives one history. cont=true keeps going after a refuting prefix (probe mode).
+// A run that hit the quiescence watchdog (stalled machine) is repeated on a fresh
+// sender up to two times; only a run that reached quiescence after every event is judged.
 func (w *c12Worker) run(max int, hist []c12Ev, cont, trace bool) c12Result {
+	var r c12Result
+	for attempt := 0; attempt < 3; attempt++ {
+		r = w.runOnce(max, hist, cont, trace)
+		if r.Inconcl == "" {
+			break
+		}
+		atomic.AddInt64(&c12WatchdogRetries, 1)
+	}
+	return r
+}
+
+var c12WatchdogRetries int64
+
+func (w *c12Worker) runOnce(max int, hist []c12Ev, cont, trace bool) c12Result {
 	res := c12Result{Max: max, Hist: hist}
 	in := c12NewInst(w.conn, max)
 	defer in.teardown()
@@ -997,9 +1013,11 @@ func (w *c12Worker) run(max int, hist []c12Ev, cont, trace bool) c12Result {
 			}
 		}
 		m = m2
-		for j, n := range o.Queue {
-			if pos, ok := o.LastTQPos[n]; !ok || pos != j+1 {
-				res.TQStale++
+		if len(vs) == 0 {
+			for j, n := range o.Queue {
+				if pos, ok := o.LastTQPos[n]; !ok || pos != j+1 {
+					res.TQStale++
+				}
 			}
 		}
 		if trace {
@@ -1358,8 +1376,9 @@ func runC12(e *Env) {
 		termio.Init()
 		os.Stderr = orig
 	}
-	// thousands of tiny short-lived senders per second: collect less often
-	defer debug.SetGCPercent(debug.SetGCPercent(1600))
+	// thousands of tiny short-lived senders per second: collect less often, within a memory cap
+	defer debug.SetGCPercent(debug.SetGCPercent(800))
+	defer debug.SetMemoryLimit(debug.SetMemoryLimit(3 << 30))
 	verifhook.Reset()
 	c12InstallHooks()
 	defer verifhook.Reset()
@@ -1642,6 +1661,7 @@ func runC12(e *Env) {
 	e.R.SetExtra("diagnostic_last_TransferQueued_position_not_current", atomic.LoadInt64(&x.tqStale))
 	e.R.SetExtra("diagnostic_TransferStart_field_mismatch", atomic.LoadInt64(&x.tsBad))
 	e.R.SetExtra("diagnostic_TransferQueued_field_mismatch", atomic.LoadInt64(&x.tqBad))
+	e.R.SetExtra("watchdog_hits_retried", atomic.LoadInt64(&c12WatchdogRetries))
 	e.R.SetExtra("wall_s_harness", time.Since(t0).Seconds())
 
 	e.R.Require(atomic.LoadInt64(&x.runs) >= int64(len(cases)), "fewer histories run than generated")
